@@ -38,6 +38,12 @@ class Geometry:
         self.W0 = NDIV ** (D * LMAX)
         self.WTOT = N ** D * self.W0
         self.nslots = (LMAX + 2) * self.U ** D
+        self.registry = None   # big worlds: slots are handed out on first use instead of by coordinate
+
+    def use_registry(self, capacity):
+        self.registry = {}
+        self.nslots = capacity
+        return self
 
     def key(self):
         return (self.D, self.N, self.NDIV, self.LMAX, self.group)
@@ -56,6 +62,11 @@ class Geometry:
     def slot(self, cell, lev):
         if lev > self.LMAX + 1:
             raise NonIntegral(f"refinement level {lev} beyond LMAX={self.LMAX}")
+        if self.registry is not None:
+            s = self.registry.setdefault((tuple(cell), lev), len(self.registry))
+            if s >= self.nslots:
+                raise NonIntegral("slot registry capacity exceeded")
+            return s
         lin = cell[0] + (self.U * cell[1] if self.D == 2 else 0)
         return lev * self.U ** self.D + lin
 
@@ -292,6 +303,24 @@ class World:
             return None
         return EnergyResult.from_npz(fn, void_if_missing=False)
 
+    # ---- summary sink for big worlds: one compact record per UpdateIntegral / Return / SaveData
+    def summary_sink(self, event, f):
+        if event not in ("UpdateIntegral", "Return", "StartRestart"):
+            return
+        g = self.geo
+        try:
+            K_list = f["K_list"]
+            pr = self.proj_result(f["result_all"], K_list)
+            facs = [g.weight(K.factor) for K in K_list]
+            mism = [[i + 1, c, w] for i, (c, w) in enumerate(zip(pr["coef"], facs)) if c != w]
+            self.events.append(dict(e=event, nk=len(K_list), wtot=g.WTOT, sumfac=sum(facs), sumcoef=sum(pr["coef"]),
+                                    mismatches=mism[:20], nmismatch=len(mism), stray=pr["stray"],
+                                    notevaluated=sum(1 for K in K_list if not K.was_evaluated_flag),
+                                    minpos=min([w for w in facs if w > 0] or [0])))
+        except NonIntegral as ex:
+            self.events.append(dict(e=event, nonintegral=str(ex)))
+            self.problems.append(str(ex))
+
     # ---- hook sink
     def sink(self, event, f):
         g = self.geo
@@ -305,6 +334,7 @@ class World:
                 if event == "StartRestart":
                     ev["coef"] = self.proj_result(f["result_all"], f["K_list"])
                     ev["listing"] = list(self.last_listing) if self.last_listing is not None else None
+                    ev["ri"] = int(self.restart_iteration)
                 if ev["allow"]:
                     ev["disk"] = self.disk_state()
             elif event == "BeginProcess":
@@ -354,14 +384,16 @@ class World:
 
     # ---- running
     def run(self, nit, parallel=False, dump=False, allow=False, sym=True, restart=False, adpt_fac=1,
-            schedule=None, ncpu=2, listing_fn=None, klist_part=10, restart_iteration=-1, real_ray=False):
-        grid = wb.Grid(system=self.system, NKdiv=[self.geo.N, self.geo.N if self.geo.D == 2 else 1, 1], NKFFT=1)
-        RG._verif_sink = self.sink
+            schedule=None, ncpu=2, listing_fn=None, klist_part=10, restart_iteration=-1, real_ray=False, summary=False):
+        with quiet():
+            grid = wb.Grid(system=self.system, NKdiv=[self.geo.N, self.geo.N if self.geo.D == 2 else 1, 1], NKFFT=1)
+        RG._verif_sink = self.summary_sink if summary else self.sink
         RG._VERIF_ON = True
         old_glob = RG.glob
         shim = GlobShim(listing_fn or (lambda files: files))
         RG.glob = shim
         self.last_listing = None
+        self.restart_iteration = restart_iteration
         if restart:
             # the listing is consulted inside read_factors before the StartRestart event is emitted
             files = sorted(_glob.glob(os.path.join(self.kdir, "factors_iter-*.npy")))
